@@ -35,6 +35,22 @@ About `execute` (packaging/target.py) and every pipeline built from it:
 * `faults_reported_or_recovered`,
   `probe_and_fallback_fail_reported`           a failing invocation is either reported (130) or it is a handled probe whose fallback — the
                                              next invocation, same tool — succeeded; probe and fallback both failing is always reported
+* `named_status_decides`                       the status of the *named* command decides: any logged failing verdict that no caller handles
+                                             ends the operation with 130 (clause `named-command-status-lost` of `specObs` on the model's log)
+* `Sh.simple_status`, `executeSh_simple`,
+  `executeSh_pipe_hides_failure`,
+  `executeSh_list_hides_failure`               what `sh -c` makes of the joined command line: for a simple command the status is the named
+                                             tool's (the model's rule); `tool | formatter`, `tool ; x`, `tool || x`, `tool &` succeed although
+                                             the tool fails — counterexamples for a caller that composes such a line when a helper is installed
+* `scpLike_any_depth`, `scpLike_single`,
+  `classify_remote_iff`                        the address of the Swift package repository: "through git" iff an http(s) URL or a relative
+                                             path starting `git@` with final suffix `.git` — for any number of path segments in between
+* `publish_remote_starts_git`,
+  `publish_remote_git_unavailable_130`,
+  `publish_remote_fault_reported`,
+  `publish_local_no_command`                   every such address makes `publish` start git as its first act (clone there or not, any oracle);
+                                             git absent or failing there, or at any later invocation point: 130, directory restored, nothing
+                                             after it; a local directory starts no command at all
 -/
 namespace Pydjinni.Sys.Pkg
 
@@ -1344,6 +1360,270 @@ theorem packageOp_faults_spec (c : Cfg) (orc : Oracle) (k : Nat) (w : World) (hw
     simp only at hq
     exact ⟨hb.mp hq, by simp⟩
 
+/-! ### the environment: helper programs, pipelines, wrappers -/
+
+/-- a simple command line: the status `execute` sees is the status of the named tool -/
+theorem Sh.simple_status (st : String → Bool) (line : Sh) (h : line.simple = true) : line.status st = st line.named := by
+  cases line <;> simp [Sh.simple] at h
+  rfl
+
+/-- … so `executeSh` on a simple command line is the model's rule: error 130 iff the named tool is missing or exits non-zero -/
+theorem executeSh_simple (present st : String → Bool) (line : Sh) (h : line.simple = true) :
+    executeSh present st line = .ok ↔ (present line.named = true ∧ st line.named = true) := by
+  unfold executeSh
+  rw [Sh.simple_status st line h]
+  by_cases hp : present line.named <;> by_cases hs : st line.named <;> simp [hp, hs]
+
+/-- **a pipeline hides the failure of the named tool**: with a formatter installed that exits 0, `tool … | formatter` is a success
+    whatever the tool's own status (the shape of regression the environment dimension of the check is there for) -/
+theorem executeSh_pipe_hides_failure (present st : String → Bool) (tool helper : String) (hp : present tool = true) (hh : st helper = true) :
+    executeSh present st (.pipe (.cmd tool) (.cmd helper)) = .ok := by
+  simp [executeSh, Sh.named, Sh.status, hp, hh]
+
+/-- the same for `tool … ; other`, `tool … || other`, `tool … &` -/
+theorem executeSh_list_hides_failure (present st : String → Bool) (tool other : String) (hp : present tool = true) (ho : st other = true) :
+    executeSh present st (.seq (.cmd tool) (.cmd other)) = .ok ∧ executeSh present st (.or (.cmd tool) (.cmd other)) = .ok
+      ∧ executeSh present st (.bg (.cmd tool)) = .ok := by
+  simp [executeSh, Sh.named, Sh.status, hp, ho]
+
+/-- a wrapper that passes the status of its command on (`ccache`, `time`, `nice`, `xcrun`) changes nothing: only *which* status the
+    shell returns matters -/
+theorem executeSh_and_keeps_failure (present st : String → Bool) (pre tool : String) (hp : present pre = true) (hf : st tool = false) :
+    executeSh present st (.and (.cmd pre) (.cmd tool)) = .err .external := by
+  simp [executeSh, Sh.named, Sh.status, hp, hf]
+
+/-- **The status of the named command decides** (model): for every pipeline and oracle, if any logged invocation has a failing
+    verdict that its caller does not handle, the operation ends with the external-command error — the clause
+    `named-command-status-lost` of `specObs` on the model's own log. -/
+theorem named_status_decides (orc : Oracle) (steps : List Step) (w : World) (hw : clean w.calls = true)
+    (h : (run orc steps w).2.calls.any (fun c => decide (c.result ≠ .ok) && !c.handled) = true) :
+    (run orc steps w).1 = .err .external := by
+  refine (run_fault_reported orc steps w hw ?_).1
+  simp only [List.any_eq_true, Bool.and_eq_true, decide_eq_true_eq, Bool.not_eq_true'] at h
+  obtain ⟨c, hc, hres, hh⟩ := h
+  simp only [clean, List.all_eq_false]
+  exact ⟨c, hc, by simp [Call.clean, hres, hh]⟩
+
+#guard plainCommand "xcodebuild -create-xcframework -output /a/b/T.xcframework -framework /a/T.framework"
+#guard plainCommand "git commit -m \"version 1.2.3\n\""
+#guard plainCommand "git tag 1.2.3\n"
+#guard plainCommand "git clone https://u:p@github.com:443/foo/bar.git dist/release/build/swiftpackage/package_repository"
+#guard plainCommand "git commit -m 'a | b ; c'"
+#guard !plainCommand "xcodebuild -create-xcframework -output /a/b | xcpretty"
+#guard !plainCommand "conan build . ; true"
+#guard !plainCommand "nuget push x || true"
+#guard !plainCommand "lipo -create a b &"
+#guard !plainCommand "git tag 1.2.3\ngit push"
+#guard plainCommand "echo a\\|b"
+
+/-! ### the address of the Swift package repository -/
+
+theorem scpLike_abs (comps : List (List Char)) : scpLike true comps = false := rfl
+
+/-- one component: `git@host:repo.git` -/
+theorem scpLike_single (c : List Char) : scpLike false [c] = (gitAt.isPrefixOf c && gitSuffix c) := rfl
+
+/-- **any number of path segments**: a relative path whose first component starts with `git@` and whose last component has the
+    suffix `.git` is an scp-like address, whatever lies in between (`git@host:group/subgroup/…/repo.git`, `git@host:/srv/git/r.git`,
+    `git@host:~user/r.git`) -/
+theorem scpLike_any_depth (first : List Char) (mid : List (List Char)) (last : List Char)
+    (h1 : gitAt.isPrefixOf first = true) (h2 : gitSuffix last = true) : scpLike false (first :: (mid ++ [last])) = true := by
+  simp [scpLike, h1, h2, List.getLast?_cons, List.getLast?_append]
+
+/-- what decides between "copy into a directory" and "through git": only `isHttp` and `scpLike` of the parsed text -/
+theorem classify_remote_iff (cwd : Path) (cs : List Char) :
+    (classifyChars cwd cs).isRemote = (isHttp cs || scpLike (pathParts cs).1 (pathParts cs).2) := by
+  unfold classifyChars
+  by_cases h1 : isHttp cs
+  · simp [h1, SwiftRepo.isRemote]
+  · by_cases h2 : scpLike (pathParts cs).1 (pathParts cs).2
+    · simp [h1, h2, SwiftRepo.isRemote]
+    · simp only [h1, h2, Bool.false_eq_true, if_false, Bool.or_self]
+      split
+      · rfl
+      · split <;> rfl
+
+/-! ### `publish` of the Swift package: which addresses need git, and what happens when git is not there or fails -/
+
+/-- the log only grows -/
+theorem runPrim_calls_prefix (orc : Oracle) (w : World) (p : Prim) : ∃ more, (runPrim orc w p).2.calls = w.calls ++ more := by
+  cases p with
+  | exec tool sig wd eff =>
+    rcases execute_log orc tool sig wd eff false w with ⟨_, hc⟩ | ⟨c, hc, _⟩
+    · exact ⟨[], by simp only [runPrim]; rw [hc]; simp⟩
+    · exact ⟨[c], by simp only [runPrim]; rw [hc]⟩
+  | execOr tool s1 s2 wd =>
+    simp only [runPrim]
+    rcases execute_log orc tool s1 wd [] true w with ⟨_, hc⟩ | ⟨c, hc, _⟩
+    · split
+      · rename_i w1 heq
+        rcases execute_log orc tool s2 wd [] false w1 with ⟨_, hc2⟩ | ⟨c2, hc2, _⟩
+        · refine ⟨[], ?_⟩; rw [hc2]; rw [heq] at hc; simpa using hc
+        · refine ⟨[c2], ?_⟩; rw [hc2]; rw [heq] at hc; simp only at hc; rw [hc]
+      · exact ⟨[], by rw [hc]; simp⟩
+    · split
+      · rename_i w1 heq
+        rcases execute_log orc tool s2 wd [] false w1 with ⟨_, hc2⟩ | ⟨c2, hc2, _⟩
+        · refine ⟨[c], ?_⟩; rw [hc2]; rw [heq] at hc; simpa using hc
+        · refine ⟨[c, c2], ?_⟩; rw [hc2]; rw [heq] at hc; simp only at hc; rw [hc]; simp
+      · exact ⟨[c], hc⟩
+  | prepare d c => exact ⟨[], by rw [(runPrim_other orc w (.prepare d c) (by simp) (by simp)).1]; simp⟩
+  | copyTree srcs dst c => exact ⟨[], by rw [(runPrim_other orc w (.copyTree srcs dst c) (by simp) (by simp)).1]; simp⟩
+  | copyFile s d => exact ⟨[], by rw [(runPrim_other orc w (.copyFile s d) (by simp) (by simp)).1]; simp⟩
+  | write p => exact ⟨[], by rw [(runPrim_other orc w (.write p) (by simp) (by simp)).1]; simp⟩
+  | need site p => exact ⟨[], by rw [(runPrim_other orc w (.need site p) (by simp) (by simp)).1]; simp⟩
+  | unlink p => exact ⟨[], by rw [(runPrim_other orc w (.unlink p) (by simp) (by simp)).1]; simp⟩
+  | setFlagFile n p => exact ⟨[], by rw [(runPrim_other orc w (.setFlagFile n p) (by simp) (by simp)).1]; simp⟩
+  | setFlagAnyDir n ps => exact ⟨[], by rw [(runPrim_other orc w (.setFlagAnyDir n ps) (by simp) (by simp)).1]; simp⟩
+
+theorem run_calls_prefix (orc : Oracle) (steps : List Step) (w : World) : ∃ more, (run orc steps w).2.calls = w.calls ++ more := by
+  induction steps generalizing w with
+  | nil => exact ⟨[], by simp [run]⟩
+  | cons s ss ih =>
+    simp only [run]
+    have hs : ∃ more, (runStep orc w s).2.calls = w.calls ++ more := by
+      unfold runStep; split
+      · exact runPrim_calls_prefix orc w s.prim
+      · exact ⟨[], by simp⟩
+    obtain ⟨m1, h1⟩ := hs
+    split
+    · rename_i w1 heq
+      rw [heq] at h1
+      obtain ⟨m2, h2⟩ := ih w1
+      exact ⟨m1 ++ m2, by rw [h2, h1, List.append_assoc]⟩
+    · exact ⟨m1, h1⟩
+
+/-- the step list of a publish through git (scp-like address or URL) -/
+def gitPublishSteps (c : Cfg) : List Step :=
+  let repo := c.repoDir
+  [always (.setFlagAnyDir "repo" [repo]),
+   ⟨.flag "repo", .exec "git" ["checkout"] (some repo) []⟩,
+   ⟨.flag "repo", .exec "git" ["pull"] (some repo) []⟩,
+   ⟨.notFlag "repo", .exec "git" ["clone"] none [.here (repo.join ["Package.swift"]), .here (repo.join [".git", "HEAD"])]⟩,
+   ⟨.notFlag "repo", .exec "git" ["checkout"] (some repo) []⟩,
+   always (.unlink (repo.join ["Package.swift"])),
+   always (.prepare (repo.join ["bin"]) true),
+   always (.copyTree [c.pkgBuild] repo false),
+   always (.need "read" (c.pkgBuild.join ["VERSION"])),
+   ⟨.always, .exec "git" ["add"] (some repo) []⟩,
+   ⟨.always, .exec "git" ["commit"] (some repo) []⟩,
+   ⟨.always, .exec "git" ["tag"] (some repo) []⟩,
+   ⟨.always, .exec "git" ["push"] (some repo) []⟩,
+   ⟨.always, .exec "git" ["push", "--tags"] (some repo) []⟩]
+
+theorem publishSteps_swift_remote (c : Cfg) (hkey : c.key = "swiftpackage") (hr : c.swiftRepo.isRemote = true) :
+    publishSteps c = gitPublishSteps c := by
+  unfold publishSteps gitPublishSteps
+  rw [hkey]
+  cases hrepo : c.swiftRepo with
+  | localDir d => rw [hrepo] at hr; cases hr
+  | gitPath => rfl
+  | url => rfl
+
+theorem publishSteps_swift_local (c : Cfg) (hkey : c.key = "swiftpackage") (d : P) (hr : c.swiftRepo = .localDir d) :
+    publishSteps c = [always (.copyTree [c.pkgBuild] (d.join [c.target]) true)] := by
+  unfold publishSteps
+  rw [hkey, hr]
+  rfl
+
+theorem hasFlag_setFlag (w : World) (n : String) (v : Bool) : (setFlag w n v).hasFlag n = v := by
+  cases v
+  · simp [setFlag, World.hasFlag]
+  · simp only [setFlag, World.hasFlag, if_true]
+    split
+    · assumption
+    · simp
+
+theorem run_skip (orc : Oracle) (s : Step) (ss : List Step) (w : World) (h : condHolds w s.cond = false) :
+    run orc (s :: ss) w = run orc ss w := by
+  simp [run, runStep, h]
+
+/-- a pipeline whose first step is an `execute` that applies and whose working directory exists: the first logged invocation is that one -/
+theorem run_exec_first (orc : Oracle) (cond : Cond) (tool : String) (sig : List String) (wd : Option P) (eff : List Eff) (rest : List Step)
+    (w : World) (hc : condHolds w cond = true) (hcd : (chdirTo w wd).isSome = true) (hw : w.calls = []) :
+    ∃ call more, (run orc (⟨cond, .exec tool sig wd eff⟩ :: rest) w).2.calls = call :: more ∧ call.tool = tool
+      ∧ call.result = orc 0 tool ∧ call.handled = false := by
+  have hstep : runStep orc w ⟨cond, .exec tool sig wd eff⟩ = execute orc tool sig wd eff false w := by simp [runStep, hc, runPrim]
+  rcases execute_log orc tool sig wd eff false w with ⟨he, _⟩ | ⟨call, hcl, ht, hres, hh, _⟩
+  · exfalso
+    obtain ⟨w1, hw1⟩ := Option.isSome_iff_exists.mp hcd
+    simp only [execute, hw1] at he
+    split at he <;> simp at he
+  · rw [hw] at hcl hres
+    simp only [List.nil_append, List.length_nil] at hcl hres
+    have hh' : call.handled = false := by simpa using hh
+    cases hex : execute orc tool sig wd eff false w with
+    | mk r1 w1 =>
+      rw [hex] at hcl
+      simp only at hcl
+      cases r1 with
+      | ok =>
+        rw [run_cons_ok (hstep.trans hex)]
+        obtain ⟨more, hm⟩ := run_calls_prefix orc rest w1
+        exact ⟨call, more, by rw [hm, hcl]; rfl, ht, hres, hh'⟩
+      | err e =>
+        rw [run_cons_err (hstep.trans hex)]
+        exact ⟨call, [], hcl, ht, hres, hh'⟩
+
+/-- **An address that is not a local directory needs git at once**: for every scp-like address and every URL (`isRemote`), whatever the
+    state of the tree (clone there or not) and whatever the tools do, the first thing `publish` does to the outside world is a `git`
+    invocation, with the verdict the environment gives invocation 0 — it is never skipped, and no caller handles its failure. -/
+theorem publish_remote_starts_git (c : Cfg) (hkey : c.key = "swiftpackage") (hr : c.swiftRepo.isRemote = true)
+    (orc : Oracle) (w : World) (hw : w.calls = []) :
+    ∃ call more, (run orc (publishSteps c) w).2.calls = call :: more ∧ call.tool = "git" ∧ call.result = orc 0 "git" ∧ call.handled = false := by
+  rw [publishSteps_swift_remote c hkey hr]
+  unfold gitPublishSteps
+  have h0 : runStep orc w (always (.setFlagAnyDir "repo" [c.repoDir]))
+      = (.ok, setFlag w "repo" (w.dirExists (resolve w.cwd c.repoDir))) := by
+    simp [runStep, always, condHolds, runPrim]
+  rw [run_cons_ok h0]
+  by_cases hd : w.dirExists (resolve w.cwd c.repoDir) = true
+  · -- the clone is there: `git checkout` in it
+    rw [hd]
+    refine run_exec_first orc _ "git" ["checkout"] (some c.repoDir) [] _ _ (by simp [condHolds, hasFlag_setFlag]) ?_ hw
+    have : (setFlag w "repo" true).dirExists (resolve w.cwd c.repoDir) = true := hd
+    simp [chdirTo, setFlag_cwd, this]
+  · -- no clone yet: two steps do not apply, then `git clone` from the caller's directory
+    have hd' : w.dirExists (resolve w.cwd c.repoDir) = false := by simpa using hd
+    rw [hd']
+    rw [run_skip _ _ _ _ (by simp [condHolds, hasFlag_setFlag]), run_skip _ _ _ _ (by simp [condHolds, hasFlag_setFlag])]
+    exact run_exec_first orc _ "git" ["clone"] none _ _ _ (by simp [condHolds, hasFlag_setFlag]) (by simp [chdirTo]) hw
+
+/-- **git absent or failing at the first point: code 130**, one invocation, the caller's directory restored — for every address
+    that is not a local directory (one, two or ten path segments, `~`, ports: `classify_remote_iff`, `scpLike_any_depth`). -/
+theorem publish_remote_git_unavailable_130 (c : Cfg) (hkey : c.key = "swiftpackage") (hr : c.swiftRepo.isRemote = true)
+    (orc : Oracle) (w : World) (hw : w.calls = []) (hbad : orc 0 "git" ≠ .ok) :
+    (run orc (publishSteps c) w).1 = .err .external ∧ (run orc (publishSteps c) w).2.cwd = w.cwd
+      ∧ (run orc (publishSteps c) w).2.calls.length = 1 := by
+  obtain ⟨call, more, hc, ht, _, hh⟩ := publish_remote_starts_git c hkey hr orc w hw
+  have hk : 0 < (run orc (publishSteps c) w).2.calls.length := by rw [hc]; simp
+  have h0 : (run orc (publishSteps c) w).2.calls[0] = call := by simp [hc]
+  exact first_unhandled_fault_ends orc (publishSteps c) 0 w hw hk (by rw [h0, ht]; exact hbad) (by rw [h0]; exact hh)
+
+/-- no step of the Swift package publish is a probe with a fallback -/
+theorem gitPublishSteps_noProbe (c : Cfg) : (gitPublishSteps c).all noProbe = true := rfl
+
+/-- **… and at every later point**: under any oracle, whichever logged git invocation `k` of a publish through git gets a failing
+    verdict (missing or non-zero), the outcome is 130, the directory is restored and `k` is the last invocation. -/
+theorem publish_remote_fault_reported (c : Cfg) (hkey : c.key = "swiftpackage") (hr : c.swiftRepo.isRemote = true)
+    (orc : Oracle) (k : Nat) (w : World) (hw : w.calls = [])
+    (hk : k < (run orc (publishSteps c) w).2.calls.length)
+    (hbad : orc k ((run orc (publishSteps c) w).2.calls[k]).tool ≠ .ok) :
+    (run orc (publishSteps c) w).1 = .err .external ∧ (run orc (publishSteps c) w).2.cwd = w.cwd
+      ∧ (run orc (publishSteps c) w).2.calls.length = k + 1 := by
+  have hun := run_unhandled orc (publishSteps c) w (by rw [publishSteps_swift_remote c hkey hr]; exact gitPublishSteps_noProbe c) (by rw [hw]; rfl)
+  have hh : ((run orc (publishSteps c) w).2.calls[k]).handled = false := by
+    have := (List.all_eq_true.mp hun) _ (List.getElem_mem hk)
+    simpa using this
+  exact first_unhandled_fault_ends orc (publishSteps c) k w hw hk hbad hh
+
+/-- **A local directory needs no external command**: the package is copied, nothing is started, the external-command error cannot occur. -/
+theorem publish_local_no_command (c : Cfg) (hkey : c.key = "swiftpackage") (d : P) (hr : c.swiftRepo = .localDir d)
+    (orc : Oracle) (w : World) :
+    (run orc (publishSteps c) w).2.calls = w.calls ∧ (run orc (publishSteps c) w).1 ≠ .err .external := by
+  rw [publishSteps_swift_local c hkey d hr, run_singleton, runStep_always]
+  exact runPrim_other orc w _ (by simp) (by simp)
+
 /-! ### non-vacuity (compiled evaluation: tests that the hypotheses are met by concrete runs, not proofs) -/
 
 def cfgAar : Cfg := {
@@ -1428,5 +1708,36 @@ def obsAway (code : Nat) (first : Path) : Obs :=
 #guard spec "aar" "package" (some (2, false)) 3 { obsAway 130 ["proj", "sub"] with workRoots := [] } == ["ran-outside-caller-directory"]
 -- the pinned `execute`: after a non-zero exit the process sits in the package build directory
 #guard (executePinned ["elsewhere"] (faultAt 0 .nonzero) "gradlew" [] (some (.rel ["b"])) [] { w0 with dirs := [["proj", "b"]] }).2.cwd == ["proj", "b"]
+
+-- the address forms: one, two, several segments, `~`, absolute, port-like, trailing slash … are all "through git";
+-- no `.git` suffix, another user, another scheme, leading blank … are directories (the rule of the code)
+#guard ["git@github.com:foo/bar.git", "git@h:repo.git", "git@gitlab.example.com:group/subgroup/repo.git", "git@h:a/b/c/d/e.git",
+        "git@h:/srv/git/repo.git", "git@h:~user/repo.git", "git@h:2222/grp/r.git", "git@h:repo.git/", "git@h:g//r.git", "git@h:.git",
+        "git@h:g/../r.git"].all fun a => classifyRepo ["proj"] a == .gitPath
+#guard ["https://github.com/foo/bar.git", "http://h:8080/r.git", "HTTPS://GitHub.com/a/b/c.git", "https://user@h/r"].all fun a =>
+        classifyRepo ["proj"] a == .url
+#guard classifyRepo ["proj"] "published" == .localDir (.rel ["published"])
+#guard classifyRepo ["proj"] "./a//b/" == .localDir (.rel ["a", "b"])
+#guard classifyRepo ["proj"] "/ext/pub.git" == .localDir (.abs ["ext", "pub.git"])
+#guard classifyRepo ["proj", "sub"] "../pub" == .localDir (.abs ["proj", "pub"])
+#guard classifyRepo ["proj"] "git@h:foo/bar" == .localDir (.rel ["git@h:foo", "bar"])
+#guard classifyRepo ["proj"] "git@h:x/.git" == .localDir (.rel ["git@h:x", ".git"])
+#guard classifyRepo ["proj"] "user@h:foo/bar.git" == .localDir (.rel ["user@h:foo", "bar.git"])
+#guard classifyRepo ["proj"] "ssh://git@h/foo/bar.git" == .localDir (.rel ["ssh:", "git@h", "foo", "bar.git"])
+#guard classifyRepo ["proj"] " git@h:r.git" == .localDir (.rel [" git@h:r.git"])
+-- hypotheses of `publish_remote_starts_git` / `…_unavailable_130` are met: fresh clone and existing clone, git absent
+def cfgSwiftGit (addr : String) : Cfg := { cfgSwift with platforms := [("ios", ["armv8"])], swiftRepo := classifyRepo ["proj"] addr }
+#guard ["git@h:repo.git", "git@h:group/subgroup/repo.git", "https://h/r.git"].all fun a =>
+  (let c := cfgSwiftGit a
+   let w1 := (run allOk (packageOp c) { w0 with files := [] }).2
+   let ok := run allOk (publishSteps c) { w1 with calls := [] }
+   let gone := run (missingFrom 0) (publishSteps c) { w1 with calls := [] }
+   c.swiftRepo.isRemote && ok.1 == .ok && (ok.2.calls.map (·.sig)) == [["clone"], ["checkout"], ["add"], ["commit"], ["tag"], ["push"], ["push", "--tags"]]
+   && gone.1 == .err .external && gone.2.calls.length == 1 && gone.2.cwd == ["proj"]
+   && (List.range 7).all fun k => (run (faultAt k .nonzero) (publishSteps c) { w1 with calls := [] }).1 == .err .external)
+#guard (let c := cfgSwiftGit "git@h:foo/bar"
+        let w1 := (run allOk (packageOp c) { w0 with files := [] }).2
+        let r := run (missingFrom 0) (publishSteps c) { w1 with calls := [] }
+        !c.swiftRepo.isRemote && r.1 == .ok && r.2.calls == [] && r.2.files.contains ["proj", "git@h:foo", "bar", "T", "Package.swift"])
 
 end Pydjinni.Sys.Pkg
